@@ -30,10 +30,10 @@ type c09Params struct {
 	Mod     bool  `json:"module"`   // innermost level lives in an imported module
 }
 
-var c09Kinds = []string{"抛出异常", "抛出错", "取样越界", "解析JSON", "除零", "索引越界", "未定义", "抛出异常经别名", "抛出错经别名"}
+var c09Kinds = []string{"抛出异常", "抛出错", "取样越界", "解析JSON", "除零", "索引越界", "未定义", "抛出异常经别名", "抛出错经别名", "格式化非数值"}
 
 // c09Explicit: raised by a 抛出 statement (the message is the program's own)
-func c09Explicit(kind int) bool { return kind <= 1 || kind >= 7 }
+func c09Explicit(kind int) bool { return kind <= 1 || kind == 7 || kind == 8 }
 
 var c09Sites = []string{"语句", "如果", "每当", "遍历", "构造", "拦截内", "遍历字典", "调用在遍历内", "再如条件"}
 
@@ -66,6 +66,9 @@ func c09Raise(kind int) []zn.Stmt {
 			zn.Throw{Class: "别", Args: []zn.Expr{c09S(c09Msg)}}}
 	case 2:
 		return []zn.Stmt{zn.ExprStmt{E: zn.MCall{Root: c09S("abc"), Chain: []zn.Call{{Name: "取样", Args: []zn.Expr{c09N(0), c09N(1)}}}}}}
+	case 9:
+		// a failing built-in operation of another kind: a numeric directive of % given a text
+		return []zn.Stmt{zn.ExprStmt{E: zn.Bin{Op: "%", L: c09S("{#.2}"), R: zn.List{Items: []zn.Expr{c09S("文")}}}}}
 	case 3:
 		return []zn.Stmt{zn.ExprStmt{E: zn.Call{Name: "解析JSON", Args: []zn.Expr{c09S("{")}}}}
 	case 4:
@@ -498,7 +501,7 @@ func init() {
 	mc.Register(&mc.Check{
 		ID:    "C09",
 		Level: "exploration",
-		Rule:  "E1 exhaustive over the product: raise kind {抛出异常, 抛出 custom type, both also through a variable that holds the type, failing built-in (取样 out of range), failing library call (解析JSON), 1 / 0, index out of range, undefined name} x raise site {statement, in 如果, in 每当, in 遍历 over a list, in 遍历 over a dictionary, in a constructor, inside a handler, statement with every caller's call inside a 遍历 loop of the caller, in the condition of a 再如 branch} x call depth 0..D x handler placement per level {none, matching, non-matching, non-matching+matching, matching+non-matching} x handler body {no 输出, 输出 v, raises again, no 输出 but a valued expression as last statement, calls a method that raises and handles an exception of its own and then goes on using 其} x level 1 plain method / method of an object x innermost level in the main file / in an imported module; every program runs follow-up probes after the handled call: caller locals, caller's 其, a callee local that must be gone (guarded read), a second call of the same chain, final result; on in-memory runs also the VM's call depth and scope depth. Plus, for every raise kind, a method that raises and handles N = 1, 2, 10, 100, 1000, 5000, 20000 times in one run: afterwards ordinary expressions have their values, every block has ended, no call is left open. Oracle: reference interpreter. Distinct by construction; non-trivial = at least one handler present.",
+		Rule:  "E1 exhaustive over the product: raise kind {抛出异常, 抛出 custom type, both also through a variable that holds the type, failing built-in (取样 out of range; a numeric % directive given a text), failing library call (解析JSON), 1 / 0, index out of range, undefined name} x raise site {statement, in 如果, in 每当, in 遍历 over a list, in 遍历 over a dictionary, in a constructor, inside a handler, statement with every caller's call inside a 遍历 loop of the caller, in the condition of a 再如 branch} x call depth 0..D x handler placement per level {none, matching, non-matching, non-matching+matching, matching+non-matching} x handler body {no 输出, 输出 v, raises again, no 输出 but a valued expression as last statement, calls a method that raises and handles an exception of its own and then goes on using 其} x level 1 plain method / method of an object x innermost level in the main file / in an imported module; every program runs follow-up probes after the handled call: caller locals, caller's 其, a callee local that must be gone (guarded read), a second call of the same chain, final result; on in-memory runs also the VM's call depth and scope depth. Plus, for every raise kind, a method that raises and handles N = 1, 2, 10, 100, 1000, 5000, 20000 times in one run: afterwards ordinary expressions have their values, every block has ended, no call is left open. Oracle: reference interpreter. Distinct by construction; non-trivial = at least one handler present.",
 		Assumptions: []string{
 			"reference semantics from manual ch.4: runtime faults and failing built-ins are exceptions of class 异常; handler value is its 输出 or 空",
 			"the message text of faults / built-in failures is not compared (其内容 is displayed only for 抛出 with a known message)",
